@@ -129,6 +129,6 @@ def execute(case, ctx):
 
 MANIFEST = {
     "technique": "property-based testing (Hypothesis) against an independent numpy ED reference (differential oracle)",
-    "text": "Seeded random search over lattice models, temperatures, index pairs and Matsubara numbers; every pomerol value (three access paths) is compared with an independent full-Fock-space Lehmann sum within the documented-drop bound. Shows absence of failures only on what was generated (N<=6 quick, <=8 thorough).",
+    "text": "Seeded random search over lattice models (general, non-interacting, atomic, particle-hole symmetric, pair-hopping and wide-scale families), temperatures, index pairs and Matsubara numbers; every pomerol value (three access paths) is compared with an independent full-Fock-space Lehmann sum within the documented-drop bound. Shows absence of failures only on what was generated (N<=6 quick, <=8 thorough).",
     "note": "Trusted: numpy/LAPACK, the JW construction in pbt/oracle.py, the runner engine/runner/pomrun.cpp. The reference Hamiltonian is built from the lattice's stored term list and pomerol's own index table (verified to be a bijection).",
 }
